@@ -40,7 +40,8 @@ def run_cases(chk, binp, cases, pf_ok, pf):
         if x[0] != g["err"]:
             tie.append((c, g, o))
         if x[1] != g["err"]:
-            cls = classify(c, g["err"], x[1])
+            # a recorded finding is a deviation the faithful model L1 reproduces; a deviation L1 does not predict is new
+            cls = classify(c, g["err"], x[1]) if x[0] == g["err"] else None
             if cls is not None and cls in chk.known:
                 chk.known_hit.setdefault(cls, "%s: Go reports %s, textbook definition %s" % (json.dumps(c)[:240], g["err"], x[1]))
                 known += 1
